@@ -37,6 +37,7 @@ pub fn gen(rng: &mut Rng, tier: Tier, idx: u64) -> Case {
     let mut c = Case::new("C10", "c10-conform", sw.fam, Front::B);
     let mut a = gen::gen_packet(rng, &sw);
     maybe_retarget(rng, &sw, &mut a, 200);
+    gen::maybe_retarget_props(rng, sw.fam, &mut a, 40);
     c.packets = vec![a];
     c
 }
